@@ -112,6 +112,8 @@ func (c01) Exec(seed int64, i int, tier string) Record {
 		return c01ReentCase(CaseRng(seed, "C01", i))
 	case 10:
 		return c01SecondCallCase(CaseRng(seed, "C01", i))
+	case 13:
+		return b15Case("C01", CaseRng(seed, "C01", i)) // classes overlap-probe / kth-fault-probe (b15_overlap.go)
 	case 1:
 		if (i/16)%2 == 0 {
 			return c01AggOperandCase(CaseRng(seed, "C01", i))
